@@ -36,7 +36,9 @@ Words      == {"A", "B", "C", "U", "x", "y", "a", "b", "c", "l", "m", "n", "OBJE
                 \cup Builtins \cup Keywords \cup ParamWords \cup AsgnNames
 DIdents    == {"1b"}                       \* \w+ but not an ID (leading digit)
 BIdents    == {"INTEGER"}                  \* an identifier that starts with the name of a built-in type
-QNames     == {"A.B", "m.n", "c.X"}        \* \w+\.\w+
+QNames     == {"A.B", "m.n", "c.X", "A.B.C"} \* \w+(\.\w+)+
+BQNames    == {"ID.x", "INT.y.z"}          \* a qualified name whose first part is the name of a built-in type
+DotWords   == {".x"}                       \* a dot glued to the following word (as in `ID .x`)
 DashNames  == {"a-b"}                      \* language names (\w|-)+
 BadEscStrs == {"'\\xzz'"}                  \* a string match with a malformed escape sequence
 EmptyStrs  == {"''"}
@@ -47,13 +49,15 @@ Flags      == {"+m:", "+p:", "+mp:", "+pm:"}
 Comments   == {"/*c*/", "//c"}             \* a line comment is rendered with a newline after it
 Punct      == {":", ";", "|", "(", ")", "[", "]", "=", "*=", "+=", "?=", "*", "+", "?", "#", "-",
                "!", "&", ",", ".", "~", "^", ".."}
-Alphabet   == Words \cup DIdents \cup BIdents \cup QNames \cup DashNames \cup Strs \cup Res \cup Flags
+Alphabet   == Words \cup DIdents \cup BIdents \cup QNames \cup BQNames \cup DotWords \cup DashNames \cup Strs \cup Res \cup Flags
                 \cup Comments \cup Punct
 
 Kind(x) == CASE x \in Words     -> "word"
              [] x \in DIdents   -> "dident"
              [] x \in BIdents   -> "bident"
              [] x \in QNames    -> "qname"
+             [] x \in BQNames   -> "bqname"
+             [] x \in DotWords  -> "dotword"
              [] x \in DashNames -> "dash"
              [] x \in Strs      -> "str"
              [] x \in Res       -> "re"
@@ -69,12 +73,13 @@ Strip(t) == SelectSeq(t, LAMBDA x : Kind(x) # "comment")
 IdentRoles == {"RULENAME", "ATTR", "RULEREF", "PARAM", "ALIAS", "MATCHRULE"}
 
 \* token kinds accepted by a terminal class
-\*   lang.py: ident = \w+, qualified_ident = \w+(\.\w+)?, grammar_to_import = (\w|\.)+,
-\*            language_name = (\w|-)+, rrel_id = [^\d\W]\w*\b
+\*   lang.py: ident = \w+, qualified_ident = \w+(\.\w+)* (rule references and class names),
+\*            grammar_to_import = (\w|\.)+, language_name = (\w|-)+, rrel_id = [^\d\W]\w*\b
 ClsKinds(c, D) ==
-  CASE c \in IdentRoles -> {"word", "bident"} \cup (IF "TxIdentIsID" \in D THEN {} ELSE {"dident"})
-    [] c = "QNAME"      -> {"word", "bident", "dident", "qname"}
-    [] c = "IMPORTNAME" -> {"word", "bident", "dident", "qname", "dots"}
+  CASE c = "RULEREF"    -> {"word", "bident", "qname", "bqname"} \cup (IF "TxIdentIsID" \in D THEN {} ELSE {"dident"})
+    [] c \in IdentRoles -> {"word", "bident"} \cup (IF "TxIdentIsID" \in D THEN {} ELSE {"dident"})
+    [] c = "QNAME"      -> {"word", "bident", "dident", "qname", "bqname"}
+    [] c = "IMPORTNAME" -> {"word", "bident", "dident", "qname", "bqname", "dotword", "dots"}
     [] c = "LANGNAME"   -> {"word", "bident", "dident", "dash", "minus"}
     [] c \in {"RID", "PTYPE"} -> {"word", "bident"}
     [] c \in {"STR", "PVAL", "FIXED"} -> {"str"}
@@ -82,6 +87,99 @@ ClsKinds(c, D) ==
     [] c = "FLAGS"      -> {"flags"}
     [] c = "DOTS"       -> {"dots"}
     [] OTHER            -> {}
+
+----------------------------------------------------------------------------
+\* Lexical layer: raw chunks.
+\* A text may contain the placeholders <r1>, <r2>; raws[k] is then a sequence of characters
+\* (one-character strings) written at that place, with a line break after it.  The harness
+\* keeps `/` and quote characters out of the tokens that follow a placeholder, so a chunk is
+\* lexed on its own.  Lex turns it into tokens of the alphabet, by the rules of lang.py:
+\*   - blanks separate tokens; before every token comments are skipped:
+\*     `//` up to the end of the line, `/*` up to the first `*/` if there is one;
+\*   - otherwise `/` starts a regex match, ONE token, the regular expression
+\*         /((\\/)|[^/])*/          (re_match in lang.py)
+\*     matched with backtracking: `\/` is taken as an escaped slash if the literal can still
+\*     be closed afterwards, else the backslash is an ordinary character and the `/` closes;
+\*   - a quote starts a string, one token '((\\')|[^'])*' (likewise for "), same matching;
+\*   - a run of word characters is a word; any other character stands for itself.
+\* What the tokens are called does not matter for the syntax: a regex becomes /b/, a string
+\* 'a', a word x, a comment /*c*/.  A character that starts no token gives <bad>, which
+\* no production accepts.
+\* TxRegexSplit: textx.tx used to spell the regex match as three tokens, '/' body '/', with
+\* the body /((\\/)|[^\/])*/ matched on its own (greedy, nothing to give back) and blanks
+\* and comments skipped before the body and before the closing slash.
+WordChars == {"a", "b", "c", "s", "x"}
+RawIndex(tok) == CASE tok = "<r1>" -> 1 [] tok = "<r2>" -> 2 [] OTHER -> 0
+
+RECURSIVE LitEnd(_, _, _)
+\* index of the closing quote/slash q of the literal whose body starts at i (0: none), by the
+\* matching order of the regular expression q((\\q)|[^q])*q: escape first, then plain, then stop
+LitEnd(cs, i, q) ==
+  IF i > Len(cs) THEN 0
+  ELSE IF cs[i] = q THEN i
+  ELSE IF cs[i] = "\\" /\ i < Len(cs) /\ cs[i + 1] = q
+       THEN LET r == LitEnd(cs, i + 2, q) IN IF r # 0 THEN r ELSE LitEnd(cs, i + 1, q)
+       ELSE LitEnd(cs, i + 1, q)
+
+RECURSIVE GreedyBody(_, _)
+\* first position the stand-alone body token ((\\/)|[^\/])* does not consume
+GreedyBody(cs, i) ==
+  IF i > Len(cs) THEN i
+  ELSE IF cs[i] = "\\" /\ i < Len(cs) /\ cs[i + 1] = "/" THEN GreedyBody(cs, i + 2)
+  ELSE IF cs[i] # "/" THEN GreedyBody(cs, i + 1)
+  ELSE i
+
+RECURSIVE CommentEnd(_, _)
+\* index of the `/` of the first `*/` at or after i (0: none)
+CommentEnd(cs, i) == IF i >= Len(cs) THEN 0
+                     ELSE IF cs[i] = "*" /\ cs[i + 1] = "/" THEN i + 1 ELSE CommentEnd(cs, i + 1)
+At2(cs, i, a, b) == i < Len(cs) /\ cs[i] = a /\ cs[i + 1] = b
+
+RECURSIVE SkipWsComments(_, _)
+\* first position at or after i that is neither blank nor inside a comment
+SkipWsComments(cs, i) ==
+  IF i > Len(cs) THEN i
+  ELSE IF cs[i] = " " THEN SkipWsComments(cs, i + 1)
+  ELSE IF At2(cs, i, "/", "/") THEN Len(cs) + 1
+  ELSE IF At2(cs, i, "/", "*") /\ CommentEnd(cs, i + 2) # 0 THEN SkipWsComments(cs, CommentEnd(cs, i + 2) + 1)
+  ELSE i
+
+\* index of the closing slash of the regex match that starts at i (cs[i] = "/"), 0: no match
+ReEnd(cs, i, D) ==
+  IF "TxRegexSplit" \in D
+  THEN LET b == SkipWsComments(cs, i + 1)
+           e == SkipWsComments(cs, GreedyBody(cs, b))
+       IN IF e <= Len(cs) /\ cs[e] = "/" THEN e ELSE 0
+  ELSE LitEnd(cs, i + 1, "/")
+
+RECURSIVE WordEnd(_, _), Lex(_, _, _)
+WordEnd(cs, i) == IF i <= Len(cs) /\ cs[i] \in WordChars THEN WordEnd(cs, i + 1) ELSE i
+Lex(cs, i, D) ==
+  IF i > Len(cs) THEN <<>>
+  ELSE IF cs[i] = " " THEN Lex(cs, i + 1, D)
+  ELSE IF At2(cs, i, "/", "/") THEN <<"//c">>
+  ELSE IF At2(cs, i, "/", "*") /\ CommentEnd(cs, i + 2) # 0 THEN <<"/*c*/">> \o Lex(cs, CommentEnd(cs, i + 2) + 1, D)
+  ELSE IF cs[i] = "/" THEN LET e == ReEnd(cs, i, D) IN IF e = 0 THEN <<"<bad>">> ELSE <<"/b/">> \o Lex(cs, e + 1, D)
+  ELSE IF cs[i] \in {"'", "\""} THEN LET e == LitEnd(cs, i + 1, cs[i]) IN
+                                     IF e = 0 THEN <<"<bad>">> ELSE <<"'a'">> \o Lex(cs, e + 1, D)
+  ELSE IF cs[i] \in WordChars THEN <<"x">> \o Lex(cs, WordEnd(cs, i), D)
+  ELSE IF cs[i] \in Punct THEN <<cs[i]>> \o Lex(cs, i + 1, D)
+  ELSE <<"<bad>">>
+
+RECURSIVE Expand(_, _, _)
+\* the token sequence of a text with raw chunks, as lexed under deviation set D
+Expand(toks, raws, D) ==
+  IF toks = <<>> THEN <<>>
+  ELSE LET k == RawIndex(Head(toks)) IN
+       (IF k = 0 \/ k > Len(raws) THEN <<Head(toks)>> ELSE Lex(raws[k], 1, D)) \o Expand(Tail(toks), raws, D)
+
+\* no `/` or quote may follow a chunk (a literal left open in the chunk would reach it)
+RECURSIVE WellHosted(_, _)
+WellHosted(toks, seen) ==
+  IF toks = <<>> THEN TRUE
+  ELSE LET h == Head(toks) IN
+       /\ (seen => (RawIndex(h) = 0 /\ Kind(h) \notin {"str", "re", "comment"}))
+       /\ WellHosted(Tail(toks), seen \/ RawIndex(h) # 0)
 
 ----------------------------------------------------------------------------
 \* PEG expressions (the cost fields are read by the generator only)
@@ -167,23 +265,25 @@ NonTerminals == DOMAIN GramLang
 
 \* the deviation clauses that describe textx.tx
 TxDevs == {"TxNoRulesOk", "TxRrelRequired", "TxFlagOnlyM", "TxNoFixedName", "TxModifiersNotMixed",
-           "TxIdentIsID", "TxBuiltinPrefix"}
+           "TxIdentIsID", "TxBuiltinPrefix", "TxBuiltinBeforeDot", "TxRegexSplit"}
 
 ----------------------------------------------------------------------------
 \* PEG interpreter.
 \* A position is 2*i (before token i) or 2*i+1: inside token i, after the built-in type
 \* name an identifier such as INTEGER starts with -- reachable only with TxBuiltinPrefix,
-\* where the rule-reference production of textx.tx takes `INT` and leaves `EGER`.
+\* where the rule-reference production of textx.tx takes `INT` and leaves `EGER`, and with
+\* TxBuiltinBeforeDot, where it takes the `ID` of `ID.x` and leaves `.x`, which nothing matches.
 
 MatchTok(t, v, p) ==
   IF p % 2 = 0 /\ p \div 2 <= Len(t) /\ t[p \div 2] = v THEN p + 2 ELSE 0
 
 MatchCls(D, t, c, p) ==
   IF p % 2 = 1
-  THEN IF "word" \in ClsKinds(c, D) THEN p + 1 ELSE 0
+  THEN IF Kind(t[p \div 2]) = "bident" /\ "word" \in ClsKinds(c, D) THEN p + 1 ELSE 0
   ELSE IF p \div 2 > Len(t) THEN 0
        ELSE LET k == Kind(t[p \div 2]) IN
             IF c = "RULEREF" /\ "TxBuiltinPrefix" \in D /\ k = "bident" THEN p + 1
+            ELSE IF c = "RULEREF" /\ "TxBuiltinBeforeDot" \in D /\ k = "bqname" THEN p + 1
             ELSE IF k \in ClsKinds(c, D) THEN p + 2 ELSE 0
 
 Fail  == [p |-> 0, ev |-> <<>>]
